@@ -10,8 +10,8 @@ from coincurve import PrivateKey as _SK, PublicKeyXOnly as _PKX
 
 MUST, MAY, NO, EMPTY = "MUST", "MAY", "NO", "EMPTY"
 
-_HEX64 = re.compile(r"^[0-9a-f]{64}$")
-_HEX128 = re.compile(r"^[0-9a-f]{128}$")
+_HEX64 = re.compile(r"\A[0-9a-f]{64}\Z")
+_HEX128 = re.compile(r"\A[0-9a-f]{128}\Z")
 # control characters on which stdlib json and rapidjson disagree (hex digit case) and for
 # which NIP-01 wants the raw character: every C0 control except \n \r \t \b \f
 _AMBIG = set(range(0x20)) - {0x0A, 0x0D, 0x09, 0x08, 0x0C}
@@ -143,7 +143,7 @@ def authentic(ev):
             _, delegator, cond, sig = t
             if not all(isinstance(x, str) for x in t):
                 return False, "delegation tag item not a string"
-            if not _HEX64.match(delegator) and not re.match(r"^[0-9a-fA-F]{64}$", delegator):
+            if not _HEX64.match(delegator) and not re.match(r"\A[0-9a-fA-F]{64}\Z", delegator):
                 return False, "delegator not hex"
             tok = ("nostr:delegation:%s:%s" % (ev["pubkey"], cond)).encode("utf-8", "surrogatepass")
             if not schnorr_ok(delegator.lower(), sig, hashlib.sha256(tok).digest()):
